@@ -13,7 +13,7 @@
    `ffmt` is the oracle for fmt's rendering of float64 map keys (it only orders the entries of a wrapped Hash):
    every theorem holds for EVERY such function. *)
 From Coq Require Import ZArith NArith Bool List.
-From PcoreV Require Import Model.Base Model.Reflect Proofs.ReflectProofs.
+From PcoreV Require Import Model.Base Model.Reflect Model.ReflectNamed Proofs.ReflectProofs Proofs.ReflectNamedProofs.
 Import ListNotations.
 Open Scope Z_scope.
 
@@ -293,3 +293,73 @@ Example C18_example_trailing_defaults :
                                    GVPtr (Some (GVFloat 4602678819172646912)); GVPtr None ])) /\
   obj_new [84]%N ex_endpoint [] = Err EArgs.
 Proof. vm_compute. auto. Qed.
+
+(* ------------------------------------------------------------------------------------------------ *)
+(** * Defined Go types (Model/ReflectNamed.v): type Port uint16, type Blob []byte, net.IP, []Octet with type Octet uint8,
+      map[Label]Blob, pointers to them - what reflect.SliceOf/MapOf/PtrTo cannot assemble but every program declares.
+      A type is its underlying structure t plus a mask m of the nodes that are defined types; wrapn / ptype_n follow the
+      places where the bridge tests the IDENTITY of a type (type switch of wrap, wellKnown table) instead of its Kind.
+      Both clauses hold for EVERY mask, i.e. wherever the defined types sit: in particular a defined byte slice is an
+      Array[Integer[0, 255]] on the value side and on the type side alike. *)
+Theorem C18_named_roundtrip :
+  forall (ffmt : Z -> str) v t m,
+    has_type v t = true -> rt_ok_n true t m v = true -> reflect_to t (wrapn ffmt true t m v) = Ok v.
+Proof. exact roundtrip_named. Qed.
+Print Assumptions C18_named_roundtrip.
+
+Theorem C18_named_ptype_accepts :
+  forall (ffmt : Z -> str) v t m,
+    has_type v t = true -> acc_ok_n true t m v = true -> inst (ptype_n t m) (wrapn ffmt true t m v) = true.
+Proof. exact ptype_accepts_named. Qed.
+Print Assumptions C18_named_ptype_accepts.
+
+(* the model of the assembled types is the special case in which no node is a defined type *)
+Theorem C18_named_generalises :
+  forall (ffmt : Z -> str) v w t, wrapn ffmt w t (NM false []) v = wrapx ffmt w t v /\ ptype_n t (NM false []) = ptype_of t.
+Proof. exact named_generalises. Qed.
+Print Assumptions C18_named_generalises.
+
+(* which fields of a struct become attributes of the derived object type: every field except an embedded FIRST field of
+   a type derived with a declared parent; an embedded struct further down (or without a declared parent) is an
+   attribute named after its type, so it takes part in InitHash and in the constructors like any other field *)
+Theorem C18_embedded_field_is_attribute :
+  forall has_parent (fs : list (str * bool)) i n,
+    nth_error fs i = Some (n, true) -> (i <> 0%nat \/ has_parent = false) ->
+    In (first_to_lower n) (own_attr_names has_parent fs).
+Proof. exact embedded_field_is_attribute. Qed.
+Print Assumptions C18_embedded_field_is_attribute.
+
+Theorem C18_every_field_but_the_parent_is_an_attribute :
+  forall has_parent (fs : list (str * bool)) i f,
+    nth_error fs i = Some f ->
+    (i = 0%nat /\ snd f = true /\ has_parent = true) \/ In f (own_attr_fields has_parent fs).
+Proof. exact own_attr_fields_spec. Qed.
+Print Assumptions C18_every_field_but_the_parent_is_an_attribute.
+
+(* type Blob []byte; type Octet uint8: Blob{1,255}, []Octet{7} and *Blob are Arrays of Integer[0,255] on both sides,
+   []byte{1,255} stays a Binary; a nil Blob is undef (no fast path), a nil []byte handed to wrap a Binary *)
+Example C18_example_named_bytes :
+  let bytes := GSlice (GInt KUint8) in
+  let v := GVSlice (Some [GVInt 1; GVInt 255]) in
+  wrapn ex_ffmt true bytes (NM true []) v = VArr [VInt 1; VInt 255] /\
+  ptype_n bytes (NM true []) = TArray (TInteger 0 255) /\
+  wrapn ex_ffmt true bytes (NM false [NM true []]) (GVSlice (Some [GVInt 7])) = VArr [VInt 7] /\
+  ptype_n (GPtr bytes) (NM false [NM true []]) = TOptional (TArray (TInteger 0 255)) /\
+  wrapn ex_ffmt true bytes (NM false []) v = VBinary (Some [1; 255]%N) /\
+  ptype_n bytes (NM false []) = TBinary /\
+  wrapn ex_ffmt true bytes (NM true []) (GVSlice None) = VUndef /\
+  wrapn ex_ffmt true bytes (NM false []) (GVSlice None) = VBinary None /\
+  reflect_to bytes (wrapn ex_ffmt true bytes (NM true []) v) = Ok v /\
+  rt_ok_n true bytes (NM true []) v = true /\ acc_ok_n true bytes (NM true []) v = true.
+Proof. vm_compute. repeat split; reflexivity. Qed.
+
+(* struct Job { Id; Limits (embedded); Tags; *Meta (embedded); Done }: five attributes without a parent; struct Child
+   { Limits (embedded first); Name }: one attribute with the parent declared, two without *)
+Example C18_example_embedded :
+  let job := [([73; 100]%N, false); ([76; 105; 109; 105; 116; 115]%N, true); ([84; 97; 103; 115]%N, false);
+              ([77; 101; 116; 97]%N, true); ([68; 111; 110; 101]%N, false)] in
+  let child := [([76; 105; 109; 105; 116; 115]%N, true); ([78; 97; 109; 101]%N, false)] in
+  length (own_attr_names false job) = 5%nat /\ length (own_attr_names true job) = 5%nat /\
+  own_attr_names true child = [[110; 97; 109; 101]%N] /\
+  own_attr_names false child = [[108; 105; 109; 105; 116; 115]%N; [110; 97; 109; 101]%N].
+Proof. vm_compute. repeat split; reflexivity. Qed.
